@@ -1,8 +1,157 @@
 (* C03  Primary service discovery never reports secondary services.
-   Statements only; proofs live in AttSrv/AttSrvProofsC03.v. *)
-From BT Require Import Base.ListX AttDb.AttDbModel AttDb.AttDbSpec AttDb.AttDbExamples NQueue.NQueueModel
-  AttSrv.AttSrvModel AttSrv.AttSrvSpecC02 AttSrv.AttSrvSpecC03 AttSrv.AttSrvExamplesDisc.
+   Statements only; proofs live in AttSrv/AttSrvProofsC02.v (Read By Group Type) and AttSrv/AttSrvProofsC03.v.
+
+   Spec (AttSrvSpecC03.v): [groups c] = the declared services in declaration order, each with the handle of
+   its declaration and of its last attribute as the declaration assigns them (AttDbSpec.assign);
+   [primary_services c u lo hi] = (first, last, uuid) of the declared PRIMARY services (with uuid u, if
+   given) whose declaration handle lies in lo..hi. The model is coq/AttSrv/AttSrvModel.v after the repairs
+   of branch fix/C02-C03-discovery (ending handle compared as a handle; secondary services skipped).
+   All theorems: for EVERY configuration with wf c (any number of services / characteristics, any fixed
+   handles and gaps) and without include_service<> (the handle mapping with includes is C04's finding),
+   every handle range, every uuid value, every out_size >= 23 (= every MTU), every connection state. *)
+From BT Require Import Base.ListX AttDb.AttDbModel AttDb.AttDbSpec AttDb.AttDbProofs AttDb.AttDbExamples NQueue.NQueueModel
+  AttSrv.AttSrvModel AttSrv.AttSrvSpecC02 AttSrv.AttSrvSpecC03 AttSrv.AttSrvProofsC02 AttSrv.AttSrvProofsC03
+  AttSrv.AttSrvExamplesDisc.
 Local Open Scope N_scope.
 
-Example C03_wf_nonvacuous : wf cfg_secondary /\ wf cfg_disc_sec_mix /\ wf cfg_disc_sec128.
+(* ---- (1) Discover All Primary Services: the response to  10 lo hi 00 28  is determined by W, the
+   services the walk over the declaration selects: Attribute Not Found (01 10 lo 0a) if W is empty, else
+   11 <6|20> followed by (first handle, last handle, uuid) of every service of W *)
+Theorem C03_read_by_group_type_response :
+  forall c a0 a1 x0 x1 b out_size r,
+    wf c -> no_includes c -> a0 < 256 -> a1 < 256 -> x0 < 256 -> x1 < 256 ->
+    1 <= w16 a0 a1 -> w16 a0 a1 <= w16 x0 x1 -> 23 <= out_size -> out_size <= len b ->
+    handle_read_by_group_type c [16; a0; a1; x0; x1; 0; 40] b out_size = Some r ->
+    rbg_response (walk_first (groups c) (w16 a0 a1) (w16 x0 x1) (out_size - 2)) a0 a1 out_size r.
+Proof. exact read_by_group_type_spec. Qed.
+Print Assumptions C03_read_by_group_type_response.
+
+(* ... and W is a non-empty prefix of the declared primary services in the range (empty only if there is
+   none), with their real handle ranges; no element of W is a secondary service *)
+Theorem C03_read_by_group_type_reports_exactly_primary_services :
+  forall c lo hi out_size, 23 <= out_size ->
+    let W := walk_first (groups c) lo hi (out_size - 2) in
+    exists rest, primary_services c None lo hi = map gtriple W ++ rest
+                 /\ (W = [] -> primary_services c None lo hi = [])
+                 /\ (forall g, In g W -> s_secondary (snd g) = false /\ In g (groups c) /\ in_range lo hi (gfirst g) = true).
+Proof. exact rbg_reports_primary_services. Qed.
+Print Assumptions C03_read_by_group_type_reports_exactly_primary_services.
+
+(* ---- (2) Discover Primary Service by Service UUID: the response to  06 lo hi 00 28 value  is determined
+   by W: Attribute Not Found if W is empty, else 07 followed by (first handle, last handle) of every service
+   of W. (The size is computed in 8 bits - collect_find_by_type_groups::size() - hence the hypothesis
+   4 * |W| < 256; service uuids are unique in a wf configuration, so |W| <= 1 in fact; that step is not
+   formalised.) *)
+Theorem C03_find_by_type_value_response :
+  forall c st cid pdu lo hi value b out_size r,
+    wf c -> no_includes c ->
+    rd pdu 0 = Some 6 -> (len pdu = 9 \/ len pdu = 23) ->
+    rd16 pdu 1 = Some lo -> rd16 pdu 3 = Some hi -> rd16 pdu 5 = Some uuid_primary_service ->
+    slice pdu 7 (len pdu) = Some value ->
+    1 <= lo -> lo <= hi -> 23 <= out_size -> out_size <= len b ->
+    handle_find_by_type_value c st cid pdu b out_size = Some r ->
+    fbtv_response (fbtv_walk (groups c) lo hi value (out_size - 1)) lo out_size r.
+Proof. exact find_by_type_value_spec. Qed.
+Print Assumptions C03_find_by_type_value_response.
+
+Theorem C03_find_by_type_value_reports_exactly_primary_services :
+  forall c lo hi value out_size,
+    wf c -> forallb byte_ok value = true -> 23 <= out_size ->
+    let W := fbtv_walk (groups c) lo hi value (out_size - 1) in
+    exists rest, primary_services c (Some (uuid_of_bytes value)) lo hi = map gtriple W ++ rest
+                 /\ (W = [] -> primary_services c (Some (uuid_of_bytes value)) lo hi = [])
+                 /\ (forall g, In g W -> s_secondary (snd g) = false /\ In g (groups c) /\ in_range lo hi (gfirst g) = true).
+Proof. exact fbtv_reports_primary_services. Qed.
+Print Assumptions C03_find_by_type_value_reports_exactly_primary_services.
+
+(* ---- (3) a client that re-issues the request behind the last end group handle (fuel = number of services
+   + 1) enumerates the declaration handles of exactly the declared primary services (with that uuid) in
+   lo..hi, each once, in order. [rbg_responder] / [fbtv_responder] are the answers (1) / (2) as a client
+   decodes them: declaration handles + the last end group handle. *)
+Theorem C03_discover_all_primary_services :
+  forall c out_size hi, wf c -> no_includes c -> 23 <= out_size ->
+    forall lo, 1 <= lo ->
+      discover_all (S (length (groups c))) (rbg_responder c out_size) lo hi = hrange (primary_starts c) lo hi.
+Proof. exact rbg_discover_all. Qed.
+Print Assumptions C03_discover_all_primary_services.
+
+Theorem C03_discover_primary_service_by_uuid :
+  forall c out_size value hi, wf c -> no_includes c -> 23 <= out_size ->
+    forall lo, 1 <= lo ->
+      discover_all (S (length (groups c))) (fbtv_responder c out_size value) lo hi
+      = hrange (map gfirst (filter (fun g => negb (s_secondary (snd g)) && bytes_eqb (uuid_bytes (s_uuid (snd g))) value) (groups c))) lo hi.
+Proof. exact fbtv_discover_all. Qed.
+Print Assumptions C03_discover_primary_service_by_uuid.
+
+(* ---- what is NOT a theorem: "the executable monitor c03_monitor accepts every trace of the model". It needs
+   the decoding of the encodings above (handles < 65536 etc.); it is checked by the tie on every run only. *)
+Definition C03_monitor_accepts_model_full : Prop :=
+  forall c ops, wf c -> no_includes c -> c03_monitor c (srv_run c (srv_init c) ops) = None.
+
+(* ---- non-vacuity / witnesses. cfg_secondary: 1820 (secondary, 1..3), 1821 (4..6), 128 bit (secondary, 7..9),
+   128 bit (10..12), 1822 (secondary, 13..15) *)
+Example C03_wf_nonvacuous :
+  wf cfg_secondary /\ no_includes cfg_secondary /\ wf cfg_disc_sec_mix /\ no_includes cfg_disc_sec_mix
+  /\ wf cfg_disc_sec128 /\ no_includes cfg_disc_sec128.
 Proof. repeat split; vm_compute; reflexivity. Qed.
+
+Example C03_primary_services_secondary :
+  primary_services cfg_secondary None 1 65535
+  = [(4, 6, U16 6177); (10, 12, U128 [1; 2; 199; 91; 237; 78; 138; 162; 159; 73; 226; 13; 148; 64; 139; 140])].
+Proof. vm_compute. reflexivity. Qed.
+
+(* Discover All Primary Services 1..0xffff, then continued at 7: 1821 at 4..6; the 128 bit service at 10..12;
+   the secondary services at 1, 7 and 13 are never reported (the unrepaired code answered the first request
+   with 11 06 01 00 03 00 20 18 04 00 06 00 21 18) *)
+Example C03_model_discovers_cfg_secondary :
+  exists st1 st2 st3,
+    att_input cfg_secondary (srv_init cfg_secondary) O [16; 1; 0; 255; 255; 0; 40] 23 = Some (st1, [17; 6; 4; 0; 6; 0; 33; 24])
+    /\ att_input cfg_secondary st1 O [16; 7; 0; 255; 255; 0; 40] 23
+       = Some (st2, [17; 20; 10; 0; 12; 0; 1; 2; 199; 91; 237; 78; 138; 162; 159; 73; 226; 13; 148; 64; 139; 140])
+    /\ att_input cfg_secondary st2 O [16; 13; 0; 255; 255; 0; 40] 23 = Some (st3, [1; 16; 13; 0; 10]).
+Proof. do 3 eexists. repeat split; vm_compute; reflexivity. Qed.
+
+(* Discover Primary Service by Service UUID: the secondary 0x1820 is not found, the primary 0x1821 is *)
+Example C03_model_find_by_uuid_cfg_secondary :
+  exists st1 st2,
+    att_input cfg_secondary (srv_init cfg_secondary) O [6; 1; 0; 255; 255; 0; 40; 32; 24] 23 = Some (st1, [1; 6; 1; 0; 10])
+    /\ att_input cfg_secondary st1 O [6; 1; 0; 255; 255; 0; 40; 33; 24] 23 = Some (st2, [7; 4; 0; 6; 0]).
+Proof. do 2 eexists. split; vm_compute; reflexivity. Qed.
+
+Example C03_discover_all_cfg_secondary :
+  discover_all 6 (rbg_responder cfg_secondary 23) 1 65535 = [4; 10]
+  /\ discover_all 8 (rbg_responder cfg_disc_sec_mix 23) 1 65535 = [7; 24; 31].
+Proof. split; vm_compute; reflexivity. Qed.
+
+(* the monitor is not trivially accepting: the responses of the unrepaired code are rejected *)
+Example C03_monitor_rejects_secondary_service :
+  c03_monitor cfg_secondary [(OpIn O [16; 1; 0; 255; 255; 0; 40] 23, OBytes [17; 6; 1; 0; 3; 0; 32; 24; 4; 0; 6; 0; 33; 24])]
+  = Some (O, ct_primary_only)
+  /\ c03_monitor cfg_secondary [(OpIn O [6; 1; 0; 255; 255; 0; 40; 32; 24] 23, OBytes [7; 1; 0; 3; 0])] = Some (O, ct_primary_only).
+Proof. split; vm_compute; reflexivity. Qed.
+
+Example C03_monitor_rejects_wrong_range_and_missing_service :
+  c03_monitor cfg_secondary [(OpIn O [16; 1; 0; 255; 255; 0; 40] 23, OBytes [17; 6; 4; 0; 5; 0; 33; 24])] = Some (O, ct_group_range)
+  /\ c03_monitor cfg_secondary [(OpIn O [16; 1; 0; 255; 255; 0; 40] 23, OBytes [1; 16; 1; 0; 10])] = Some (O, ct_exact)
+  /\ c03_monitor cfg_secondary [(OpIn O [16; 1; 0; 5; 0; 0; 40] 23, OBytes [17; 20; 10; 0; 12; 0; 1; 2; 199; 91; 237; 78; 138; 162; 159; 73; 226; 13; 148; 64; 139; 140])]
+     = Some (O, ct_exact)
+  /\ c03_monitor cfg_secondary [(OpIn O [16; 1; 0; 255; 255; 0; 40] 23, OBytes [17; 6; 4; 0; 6; 0; 34; 24])] = Some (O, ct_group_uuid).
+Proof. repeat split; vm_compute; reflexivity. Qed.
+
+(* a session that skips the service at 10..12 is rejected when it ends *)
+Example C03_monitor_session :
+  c03_monitor cfg_secondary
+    [(OpIn O [16; 1; 0; 255; 255; 0; 40] 23, OBytes [17; 6; 4; 0; 6; 0; 33; 24]);
+     (OpIn O [16; 7; 0; 255; 255; 0; 40] 23, OBytes [17; 20; 10; 0; 12; 0; 1; 2; 199; 91; 237; 78; 138; 162; 159; 73; 226; 13; 148; 64; 139; 140]);
+     (OpIn O [16; 13; 0; 255; 255; 0; 40] 23, OBytes [1; 16; 13; 0; 10])] = None
+  /\ c03_monitor cfg_secondary
+    [(OpIn O [16; 1; 0; 255; 255; 0; 40] 23, OBytes [17; 6; 4; 0; 6; 0; 33; 24]);
+     (OpIn O [16; 7; 0; 255; 255; 0; 40] 23, OBytes [1; 16; 7; 0; 10])] = Some (1%nat, ct_exact).
+Proof. split; vm_compute; reflexivity. Qed.
+
+(* constants of the model are the ones of codes.hpp *)
+From BT Require gen.GenAttSrv.
+Example C03_constants_are_the_codes :
+  GenAttSrv.opcode_read_by_group_type_request = 16 /\ GenAttSrv.opcode_find_by_type_value_request = 6
+  /\ GenAttSrv.att_error_attribute_not_found = err_attribute_not_found /\ GenAttSrv.att_error_invalid_handle = err_invalid_handle.
+Proof. repeat split; reflexivity. Qed.
